@@ -32,6 +32,8 @@ const (
 	kStruct // struct value
 	kFn     // function value
 	kIface  // interface holding a concrete value
+	kArray  // array value (tup holds the elements)
+	kMap    // map value (m holds the entries; maps are references)
 )
 
 type aval struct {
@@ -48,6 +50,7 @@ type aval struct {
 	flds  map[int]aval
 	fn    *ssa.Function
 	inner *aval
+	m     *amap
 }
 
 type cell struct {
@@ -138,6 +141,7 @@ type Interp struct {
 	Undecided  string
 	Calls      []string // in-module calls executed (names), for effect checks
 	gcells     map[*ssa.Global]*cell
+	tolerant   bool // evaluation of a package initialiser: unsupported instructions leave unknown values
 }
 
 func NewInterp(c *Ctx) *Interp {
@@ -145,9 +149,21 @@ func NewInterp(c *Ctx) *Interp {
 }
 
 func (in *Interp) fail(msg string) {
+	if in.tolerant {
+		return
+	}
 	if in.Undecided == "" {
 		in.Undecided = msg
 	}
+}
+
+// abort records an unsupported construct; in tolerant mode the instruction is skipped instead.
+func (in *Interp) abort(msg string) bool {
+	if in.tolerant {
+		return false
+	}
+	in.fail(msg)
+	return true
 }
 
 func (in *Interp) intBits(t types.Type) (bits uint, signed bool, ok bool) {
@@ -213,10 +229,18 @@ type frame struct {
 
 func (in *Interp) globalCell(g *ssa.Global) *cell {
 	if in.gcells[g] == nil {
+		if !in.tolerant {
+			if ic := in.C.initialCell(g); ic != nil {
+				in.gcells[g] = ic
+				return ic
+			}
+		}
 		c := &cell{}
 		pt := g.Type().(*types.Pointer).Elem()
 		if isErrType(pt) {
 			c.v = aval{k: kErr, glob: g}
+		} else if in.tolerant {
+			c = in.newCellOf(pt) // the initialiser starts from zero values
 		}
 		in.gcells[g] = c
 	}
@@ -277,6 +301,14 @@ func (in *Interp) zeroOf(t types.Type) aval {
 		}
 	case *types.Struct:
 		return in.zeroStruct(u, t)
+	case *types.Array:
+		if u.Len() <= 4096 {
+			a := aval{k: kArray, typ: t}
+			for i := int64(0); i < u.Len(); i++ {
+				a.tup = append(a.tup, in.zeroOf(u.Elem()))
+			}
+			return a
+		}
 	case *types.Pointer, *types.Slice, *types.Interface, *types.Map, *types.Signature, *types.Chan:
 		return aNil(t)
 	}
@@ -304,6 +336,13 @@ func (in *Interp) newCellOf(t types.Type) *cell {
 }
 
 func (in *Interp) loadCell(c *cell, t types.Type) aval {
+	if at, ok := t.Underlying().(*types.Array); ok && c.elems != nil {
+		a := aval{k: kArray, typ: t}
+		for _, e := range c.elems {
+			a.tup = append(a.tup, in.loadCell(e, at.Elem()))
+		}
+		return a
+	}
 	if st, ok := t.Underlying().(*types.Struct); ok && c.fields != nil {
 		a := aval{k: kStruct, typ: t, flds: map[int]aval{}}
 		for i := 0; i < st.NumFields(); i++ {
@@ -315,6 +354,16 @@ func (in *Interp) loadCell(c *cell, t types.Type) aval {
 }
 
 func (in *Interp) storeCell(c *cell, v aval, t types.Type) {
+	if at, ok := t.Underlying().(*types.Array); ok && c.elems != nil {
+		for i, e := range c.elems {
+			if v.k == kArray && i < len(v.tup) {
+				in.storeCell(e, v.tup[i], at.Elem())
+			} else {
+				in.storeCell(e, aUnknown, at.Elem())
+			}
+		}
+		return
+	}
 	if st, ok := t.Underlying().(*types.Struct); ok {
 		if v.k == kStruct {
 			for i := 0; i < st.NumFields(); i++ {
@@ -504,6 +553,11 @@ type CEResult struct {
 	OK       bool // false: undecided
 }
 
+// callInit evaluates a package initialiser (tolerant mode).
+func (in *Interp) callInit(f *ssa.Function) {
+	in.call(f, nil, 0)
+}
+
 // Call evaluates fn on the given arguments (receiver first).
 func (in *Interp) Call(fn *ssa.Function, args []aval) CEResult {
 	rets, pan, ok := in.call(fn, args, 0)
@@ -624,8 +678,10 @@ func (in *Interp) call(fn *ssa.Function, args []aval, depth int) (rets []aval, p
 				base := in.get(fr, x.X)
 				idx, ok := in.get(fr, x.Index).Int()
 				if !ok {
-					in.fail("non-constant index in " + fn.Name())
-					return nil, false, false
+					if in.abort("non-constant index in " + fn.Name()) {
+						return nil, false, false
+					}
+					break
 				}
 				switch {
 				case base.k == kSlice:
@@ -639,18 +695,67 @@ func (in *Interp) call(fn *ssa.Function, args []aval, depth int) (rets []aval, p
 					}
 					fr.env[x] = aval{k: kPtr, cell: base.cell.elems[idx]}
 				default:
-					in.fail("index into unknown object in " + fn.Name())
-					return nil, false, false
+					if in.abort("index into unknown object in " + fn.Name()) {
+						return nil, false, false
+					}
+					break
 				}
 			case *ssa.Index:
-				in.fail("Index on value arrays not supported")
-				return nil, false, false
+				base := in.get(fr, x.X)
+				idx, ok := in.get(fr, x.Index).Int()
+				if base.k != kArray || !ok {
+					if in.abort("index of an unknown array value in " + fn.Name()) {
+						return nil, false, false
+					}
+					break
+				}
+				if idx < 0 || int(idx) >= len(base.tup) {
+					return nil, true, true
+				}
+				fr.env[x] = base.tup[idx]
+			case *ssa.MakeMap:
+				fr.env[x] = aval{k: kMap, typ: x.Type(), m: &amap{entries: map[string]aval{}}}
+			case *ssa.MapUpdate:
+				mv, kv := in.get(fr, x.Map), in.get(fr, x.Key)
+				if mv.k != kMap {
+					if in.abort("update of an unknown map in " + fn.Name()) {
+						return nil, false, false
+					}
+					break
+				}
+				if kv.k != kConst || kv.c == nil {
+					mv.m.opaque = true
+					break
+				}
+				mv.m.entries[kv.c.ExactString()] = in.get(fr, x.Value)
+			case *ssa.Lookup:
+				mv, kv := in.get(fr, x.X), in.get(fr, x.Index)
+				mt, isMap := x.X.Type().Underlying().(*types.Map)
+				if !isMap || (mv.k != kMap && mv.k != kNil) || kv.k != kConst || kv.c == nil || (mv.k == kMap && mv.m.opaque) {
+					if in.abort("lookup in an unknown map in " + fn.Name()) {
+						return nil, false, false
+					}
+					break
+				}
+				val, found := in.zeroOf(mt.Elem()), false
+				if mv.k == kMap {
+					if e, okE := mv.m.entries[kv.c.ExactString()]; okE {
+						val, found = e, true
+					}
+				}
+				if x.CommaOk {
+					fr.env[x] = aval{k: kTuple, tup: []aval{val, aBool(found)}}
+				} else {
+					fr.env[x] = val
+				}
 			case *ssa.MakeSlice:
 				n, ok := in.get(fr, x.Len).Int()
 				cp, ok2 := in.get(fr, x.Cap).Int()
 				if !ok || !ok2 || n < 0 || cp > 1<<16 {
-					in.fail("make with non-constant or large size in " + fn.Name())
-					return nil, false, false
+					if in.abort("make with non-constant or large size in " + fn.Name()) {
+						return nil, false, false
+					}
+					break
 				}
 				el := x.Type().Underlying().(*types.Slice).Elem()
 				arr := make([]*cell, cp)
@@ -668,23 +773,29 @@ func (in *Interp) call(fn *ssa.Function, args []aval, depth int) (rets []aval, p
 				case base.k == kPtr && base.cell != nil && base.cell.elems != nil:
 					arr, off, length, capEnd = base.cell.elems, 0, len(base.cell.elems), len(base.cell.elems)
 				default:
-					in.fail("slice of unknown object in " + fn.Name())
-					return nil, false, false
+					if in.abort("slice of unknown object in " + fn.Name()) {
+						return nil, false, false
+					}
+					break
 				}
 				lo, hi := 0, length
 				if x.Low != nil {
 					v, ok := in.get(fr, x.Low).Int()
 					if !ok {
-						in.fail("non-constant slice bound")
-						return nil, false, false
+						if in.abort("non-constant slice bound") {
+							return nil, false, false
+						}
+						break
 					}
 					lo = int(v)
 				}
 				if x.High != nil {
 					v, ok := in.get(fr, x.High).Int()
 					if !ok {
-						in.fail("non-constant slice bound")
-						return nil, false, false
+						if in.abort("non-constant slice bound") {
+							return nil, false, false
+						}
+						break
 					}
 					hi = int(v)
 				}
@@ -695,12 +806,17 @@ func (in *Interp) call(fn *ssa.Function, args []aval, depth int) (rets []aval, p
 			case *ssa.Store:
 				a := in.get(fr, x.Addr)
 				if a.k != kPtr || a.cell == nil {
-					in.fail("store through unknown pointer in " + fn.Name())
-					return nil, false, false
+					if in.abort("store through unknown pointer in " + fn.Name()) {
+						return nil, false, false
+					}
+					break
 				}
-				if a.glob != nil {
+				if a.glob != nil && !in.tolerant {
 					in.fail("store to package-level variable " + a.glob.Name())
 					return nil, false, false
+				}
+				if a.glob != nil && isErrType(x.Val.Type()) {
+					break // sentinel errors keep their identity
 				}
 				in.storeCell(a.cell, in.get(fr, x.Val), x.Val.Type())
 			case *ssa.Extract:
@@ -711,6 +827,9 @@ func (in *Interp) call(fn *ssa.Function, args []aval, depth int) (rets []aval, p
 			case *ssa.Call:
 				r, pan, ok := in.doCall(fr, x, depth)
 				if !ok {
+					if in.tolerant {
+						break
+					}
 					return nil, false, false
 				}
 				if pan {
